@@ -1,0 +1,89 @@
+//go:build verif
+
+// Contracts for package server/handlers (comment-only; read by /verif/govc).
+
+package handlers
+
+// Every handler is built by NewServerHandler / NewHealthHandler, which create
+// all channels, the done object and the user before the handler is used.
+//@ type baseHandler invariant [done] self.done != nil
+//@ type baseHandler invariant [channels] self.lines != nil && self.serverMessages != nil && self.maprMessages != nil && self.ackCloseReceived != nil
+//@ type baseHandler invariant [callback] self.handleCommandCb != nil
+//@ type baseHandler invariant [user] self.user != nil
+//@ type baseHandler chaninv lines [line-wellformed] open: elem != nil && elem.Content != nil
+//@ type readCommand invariant [server] self.server != nil
+
+// The callback stored in handleCommandCb (handleUserCommand or
+// handleHealthCommand): args is what strings.Split returned, so it has at
+// least one element; argc is whatever the envelope code computed.
+//@ iface handleCommandCb
+//@   requires [args-nonempty] len(arg3) >= 1
+
+//@ func (*baseHandler).handleProtocolVersion
+//@   requires [args-nonempty] len(args) >= 1
+//@   assigns nothing
+//@   ensures [ok-shape] implies(isnil(result3), len(result0) >= 1 && result1 == len(result0))
+//@ func (*baseHandler).handleBase64
+//@   requires [argc-is-len] argc == len(args)
+//@   assigns nothing
+//@   ensures [ok-shape] implies(isnil(result2), len(result0) >= 1 && result1 == len(result0))
+//@ func (*baseHandler).handleAckCommand
+//@   requires [argc-is-len] argc == len(args)
+//@ func (*ServerHandler).handleUserCommand
+//@   requires [args-nonempty] len(args) >= 1
+//@   requires [argc-is-len] argc == len(args)
+//@ func (*HealthHandler).handleHealthCommand
+//@   requires [args-nonempty] len(args) >= 1
+//@   requires [argc-is-len] argc == len(args)
+//@ func (*readCommand).Start
+//@   requires [argc-is-len] argc == len(args)
+//@ func newMapCommand
+//@   requires [args-nonempty] len(args) >= 1
+//@   requires [handler] serverHandler != nil
+//@   ensures [ok-shape] implies(isnil(result2), result1 != nil && result0.aggregate != nil && result0.server != nil)
+//@ func (mapCommand).Start
+//@   requires [aggregate] m.aggregate != nil
+//@ func (*readCommand).makeGlobID
+//@   requires [same-depth] uf_strcount(path, "/") >= uf_strcount(glob, "/")
+//@   assigns nothing
+//@ func (*readCommand).readFileIfPermissions
+//@   requires [same-depth] uf_strcount(path, "/") >= uf_strcount(glob, "/")
+//@   requires [wg] wg != nil
+//@ func (*readCommand).readFiles
+//@   requires [same-depth] forall(i, 0, len(paths), uf_strcount(paths[i], "/") >= uf_strcount(glob, "/"))
+//@ func newReadCommand
+//@   requires [handler] server != nil
+//@   ensures [nonnil] result != nil && result.server == server
+
+// ---- closures ----------------------------------------------------------------
+//@ func (*baseHandler).flush$1
+//@   requires [captured] h != nil
+//@   assigns nothing
+//@ func (*baseHandler).handleCommand$1
+//@   requires [captured] h != nil && cancel != nil
+//@ func (*baseHandler).shutdown$1
+//@   requires [captured] h != nil
+//@ func (*baseHandler).handleOptions$1
+//@   requires [captured] h != nil
+//@   assigns h.quiet, h.plain, h.serverless
+//@ func (*ServerHandler).handleUserCommand$1
+//@   requires [captured] h != nil
+//@ func (*ServerHandler).handleUserCommand$2
+//@   requires [captured] command != nil && commandFinished != nil && ctx != nil
+//@   requires [args] argc == len(args)
+//@ func (*ServerHandler).handleUserCommand$3
+//@   requires [captured] command != nil && commandFinished != nil && ctx != nil
+//@   requires [args] argc == len(args)
+//@ func (*ServerHandler).handleUserCommand$4
+//@   requires [captured] h != nil && commandFinished != nil && ctx != nil && command.aggregate != nil
+
+//@ func (*baseHandler).send
+//@   assigns nothing
+//@ func (*baseHandler).sendln
+//@   assigns nothing
+//@ func (*baseHandler).incrementActiveCommands
+//@   assigns h.activeCommands
+//@ func (*baseHandler).decrementActiveCommands
+//@   assigns h.activeCommands
+//@ func (*baseHandler).handleOptions
+//@   assigns h.mutex, h.once, h.quiet, h.plain, h.serverless
